@@ -4102,8 +4102,8 @@ def bundle_readpath(P, R, L):
 
 def bundle_recovery(P, R, L):
     """what a reopen restores"""
-    R.clause("RECOVER", "recovery bundle: ORD-8c (recovered sequence), ROLE-4 (persisted counters), GRD-11 (block offset of a re-used log), "
-             "GRD-12 (only completely consumed logs are re-used), TS-1 / GRD-6 (log reader)")
+    R.clause("RECOVER", "recovery bundle: GRD-1 / ORD-6 (which WALs are replayed, in sorted order), ORD-8c (recovered sequence), ROLE-4 (persisted counters), "
+             "GRD-11 (block offset of a re-used log), GRD-12 (only completely consumed logs are re-used), TS-1 / GRD-6 (log reader), FS-1 (create_file modes)")
     R.once(ord8c_recovered_sequence, P, R, L)
     R.once(role4_counters, P, R, L)
     R.once(grd11_reopen_offset, P, R, L)
@@ -4112,6 +4112,9 @@ def bundle_recovery(P, R, L):
     R.once(grd12_fully_consumed_is_exact, P, R, L)
     R.once(ts1, P, R, L)
     R.once(grd6, P, R, L)
+    R.once(fs1_create_file_modes, P, R, L)
+    from . import c02
+    R.once(c02.grd1_replay, P, R, L)
 
 
 def bundle_filter(P, R, L):
@@ -4230,3 +4233,65 @@ def grd21_manifest_cleanup(P, R, L, rule="GRD-21"):
                         else:
                             det = "flag origins %s" % [(o.kind, o.name) for o in os_]
     R.check(rule, GNV + "|flag-means-created-here", okf, where(g), "the flag is `maybe_manifest_file.is_none()` sampled before this call creates the manifest", det)
+
+
+# ------------------------------------------------------------------------------------------- FS-1 create_file honours its append flag
+def fs1_create_file_modes(P, R, L, rule="FS-1"):
+    """Every FileSystem::create_file implementation honours `append`: with append = true an existing file is continued at
+    its END (a re-used WAL / manifest is appended to, never overwritten from the start); with append = false the file
+    starts empty. The log writers and the re-use logic (OWN-7, OWN-9, GRD-11, GRD-12) assume exactly this."""
+    impls = [im for im in P.trait_impls.get("fs::traits::FileSystem::create_file", []) if im in P.bodies]
+    R.floor(rule, "FileSystem::create_file implementations", len(impls), 3)
+    for im in impls:
+        b = P.bodies[im]
+        R.analysed(b)
+        tests = _bt(b, 3)          # param 3: append
+        t_edges = [(t.bb, x) for t in tests for x in t.ok]
+        f_edges = [(t.bb, x) for t in tests for x in t.err]
+        oks = _ok_blocks(b) or b.return_blocks()
+        if "fs_disk" in b.file:
+            ap = [c for c in b.calls() if not b.is_cleanup(c.bb) and c.name == "std::fs::OpenOptions::append"]
+            tr = [c for c in b.calls() if not b.is_cleanup(c.bb) and c.name == "std::fs::OpenOptions::truncate"]
+            def flag_arg(c, negated):
+                if len(c.args) < 2:
+                    return False
+                a = c.args[1]
+                if a["k"] == "const":
+                    return a.get("val") == "1"
+                os_ = origins(b, a)
+                if not negated:
+                    return bool(os_) and all(o.kind == "param" and o.name == 3 and not o.path for o in os_)
+                # truncate(!append)
+                return bool(os_) and all(o.kind == "unop" and str(o.name) == "Not" and o.extra and all(
+                    x.kind == "param" and x.name == 3 for x in origins(b, o.extra[1]["rv"]["ops"][0])) for o in os_)
+            ok = bool(ap) and bool(tr) and all(flag_arg(c, False) for c in ap) and all(flag_arg(c, True) for c in tr)
+            # append(true) only on the append edge (or append(append)); truncate(true) only on the other edge
+            for c in ap:
+                if c.args[1]["k"] == "const" and not (t_edges and b.must_pass(c.bb, through_edges=t_edges)):
+                    ok = False
+            for c in tr:
+                if c.args[1]["k"] == "const" and not (f_edges and b.must_pass(c.bb, through_edges=f_edges)):
+                    ok = False
+            # every Ok return has passed one of the two
+            if ok and not all(b.must_pass(r, through_nodes=[c.bb for c in ap + tr]) for r in oks):
+                ok = False
+            R.check(rule, im + "|open-mode-follows-append-flag", ok, where(b), "OpenOptions::append(true) on the append edge, truncate(true) on the other, one of them on every path",
+                    "append sites %d, truncate sites %d" % (len(ap), len(tr)))
+        else:
+            cur = [s_ for s_ in field_stores(b, "cursor")]
+            at_end = [s_ for s_ in cur if any(o.kind == "call" and (o.name or "").endswith("::len") for op in s_[2]["rv"].get("ops", []) for o in origins(b, op))]
+            fresh = [c for c in b.calls() if not b.is_cleanup(c.bb) and (c.name or "").endswith("LockableInMemoryFile::new")]
+            ok = bool(tests) and bool(at_end) and bool(fresh)
+            # an Ok return reached over the append edge without creating a fresh file has moved the cursor to the end
+            for (sb, tg) in t_edges:
+                for r in oks:
+                    if r in b.reachable(tg) and not b.must_pass(r, through_nodes=[s_[0] for s_ in at_end] + [c.bb for c in fresh], start=tg):
+                        ok = False
+            # without append the returned file is a fresh one
+            for (sb, tg) in f_edges:
+                for r in oks:
+                    if r in b.reachable(tg) and not b.must_pass(r, through_nodes=[c.bb for c in fresh], start=tg):
+                        ok = False
+            R.check(rule, im + "|open-mode-follows-append-flag", ok, where(b),
+                    "append: the existing file's cursor is moved to its end; otherwise a fresh empty file replaces it",
+                    "cursor-to-end stores %d, fresh-file sites %d, append tests %d" % (len(at_end), len(fresh), len(tests)))
